@@ -154,6 +154,17 @@ add('C18', 'model_checking',
     TRUSTED + ' Named non-goals: doctest report flags, pdb.set_trace, the root logging handler.',
     'TLA+ spec + TLC model checking (safety + liveness) + TLC validation of real snapshots', 'DESIGN.md 5/C18')
 
+add('C19', 'model_checking',
+    'TLC (Threads.tla) checks the snapshot-difference mechanism of startTest / stopTest with an ident pool: 3 tests x '
+    '3 threads x <= 3 start / end operations per test, threading or low-level API, ignored or not, threads ending in '
+    'the same or any later test or never: Precise holds without ident reuse and, since fix 12a8a7f, with reuse among '
+    'threading threads; the as-built config reproduces the remaining low-level reuse defect (known finding) and four '
+    'deviation configs give counterexamples. The schedules TLC enumerates are executed by scripted tests on the real '
+    'runner (threading / _thread / _thread touching threading, names matching or nearly matching the ignore patterns) '
+    'and the reported blocks are validated by TLC against the P-spec and the ident-based I-spec.',
+    TRUSTED + ' Whether the OS reuses a thread ident is observed, not forced.',
+    'TLA+ spec + TLC model checking + TLC-generated schedules replayed on the real runner + TLC trace validation', 'DESIGN.md 5/C19')
+
 NOT_YET = {
 }
 
